@@ -576,7 +576,7 @@ theorem roundtrip_element (st : PhSt) (de : List (Nat × Tree)) (e : Tree) (hT :
       exact ⟨plainFor_of_low st' ha _ hlow.1, plainFor_of_low st' ha _ hlow.2.1, trivial⟩
     · have hke : ks.isEmpty = false := by cases ks <;> simp_all
       simp only [hke, Bool.false_eq_true, if_false, h1]
-      exact undoElement_of_good st' de ha i p ks alt (res.good hb) hk hlow.1 hlow.2.1
+      exact undoElement_of_good st' de ha res.stable.ext.1 res.closed i p ks alt (res.good hb) hk hlow.1 hlow.2.1
 
 end Undo
 end XmlDiffModel
